@@ -3,6 +3,8 @@ use jxl_jbr::JpegBitstreamData;
 pub enum Jbrd {
     Uninit(Vec<u8>),
     Init(JpegBitstreamData),
+    /// Data section is fully loaded and checked.
+    Done(JpegBitstreamData),
 }
 
 impl std::fmt::Debug for Jbrd {
@@ -10,6 +12,7 @@ impl std::fmt::Debug for Jbrd {
         match self {
             Self::Uninit(_) => write!(f, "Uninit(_)"),
             Self::Init(data) => f.debug_tuple("Init").field(data).finish(),
+            Self::Done(data) => f.debug_tuple("Done").field(data).finish(),
         }
     }
 }
@@ -30,6 +33,13 @@ impl Jbrd {
             Self::Init(data) => {
                 data.feed_bytes(bytes)?;
             }
+            Self::Done(_) => {
+                return Err(std::io::Error::new(
+                    std::io::ErrorKind::InvalidData,
+                    "cannot feed into finalized box",
+                )
+                .into());
+            }
         }
 
         Ok(())
@@ -38,13 +48,22 @@ impl Jbrd {
     pub fn finalize(&mut self) -> crate::Result<()> {
         match self {
             Jbrd::Uninit(_) => Err(jxl_jbr::Error::InvalidData.into()),
-            Jbrd::Init(data) => data.finalize().map_err(From::from),
+            Jbrd::Init(data) => {
+                data.finalize()?;
+                let Jbrd::Init(data) = std::mem::replace(self, Jbrd::new()) else {
+                    unreachable!()
+                };
+                *self = Jbrd::Done(data);
+                Ok(())
+            }
+            Jbrd::Done(_) => Ok(()),
         }
     }
 
+    /// Returns the reconstruction data, once all of it is available.
     pub fn data(&self) -> Option<&JpegBitstreamData> {
         match self {
-            Self::Init(data) => Some(data),
+            Self::Done(data) => Some(data),
             _ => None,
         }
     }
